@@ -1,5 +1,140 @@
 package proto
 
-import "testing"
+import (
+	"fmt"
+	"strconv"
+	"strings"
+	"sync"
+	"testing"
+	"testing/synctest"
+	"time"
 
-func runRouterScript(t *testing.T, line string) string { return "todo" }
+	"github.com/vapourismo/knx-go/knx"
+	"github.com/vapourismo/knx-go/knx/knxnet"
+)
+
+// A router script (one line):
+//   rtr <pause ms> <retain> : @<t> <event> ; ...
+// events: send <pid> | rx rind <pid> | rx rbusy <wait> <ctrl> | rx rlost <k> | rx other | read | close |
+//         sockfail <0|1> | end
+func runRouterScript(t *testing.T, line string) (trace string) {
+	parts := strings.SplitN(line, ":", 2)
+	head := strings.Fields(parts[0])
+	if len(head) != 3 {
+		return "bad-script"
+	}
+	pause, _ := strconv.Atoi(head[1])
+	retain, _ := strconv.Atoi(head[2])
+	var evs []event
+	if len(parts) == 2 {
+		for _, e := range strings.Split(parts[1], ";") {
+			f := strings.Fields(e)
+			if len(f) == 0 {
+				continue
+			}
+			tt, err := strconv.ParseInt(strings.TrimPrefix(f[0], "@"), 10, 64)
+			if err != nil {
+				return "bad-script"
+			}
+			evs = append(evs, event{tt, f[1:]})
+		}
+	}
+	var log []string
+	var logMu sync.Mutex
+	endMark := -1
+	add := func(s string) {
+		logMu.Lock()
+		log = append(log, s)
+		logMu.Unlock()
+	}
+	defer func() {
+		if p := recover(); p != nil {
+			logMu.Lock()
+			trace = canonical(log) + " ; PANIC " + strings.ReplaceAll(fmt.Sprint(p), "\n", " ")
+			logMu.Unlock()
+		}
+	}()
+	synctest.Test(t, func(t *testing.T) {
+		start := time.Now()
+		now := func() int64 { return int64(time.Since(start) / time.Millisecond) }
+		sock := &memSock{start: start, inbound: make(chan knxnet.Service), add: add}
+		r := knx.VerifNewRouter(sock, knx.RouterConfig{RetainCount: uint(retain), PostSendPauseDuration: time.Duration(pause) * time.Millisecond})
+		var wg sync.WaitGroup
+		for _, ev := range evs {
+			if d := ev.t - now(); d > 0 {
+				time.Sleep(time.Duration(d) * time.Millisecond)
+			}
+			synctest.Wait()
+			switch ev.toks[0] {
+			case "send":
+				pid, _ := strconv.Atoi(ev.toks[1])
+				wg.Add(1)
+				go func() {
+					defer wg.Done()
+					err := r.Send(payload(pid, true))
+					res := "ok"
+					if err != nil {
+						res = "sockerr"
+					}
+					add(fmt.Sprintf("ret %d %d %s", now(), pid, res))
+				}()
+			case "rx":
+				f, err := parseFrame(ev.toks[1:])
+				if err != nil {
+					add("bad-frame")
+					continue
+				}
+				func() {
+					defer func() {
+						if recover() != nil {
+							add(fmt.Sprintf("undelivered %d", now()))
+						}
+					}()
+					select {
+					case sock.inbound <- f:
+					default:
+						add(fmt.Sprintf("undelivered %d", now()))
+					}
+				}()
+			case "read":
+				select {
+				case m, ok := <-r.Inbound():
+					if !ok {
+						add(fmt.Sprintf("got %d closed", now()))
+					} else {
+						add(fmt.Sprintf("got %d %d", now(), pidOf(m)))
+					}
+				default:
+					add(fmt.Sprintf("got %d none", now()))
+				}
+			case "close":
+				r.Close()
+			case "sockfail":
+				sock.mu.Lock()
+				sock.failing = ev.toks[1] == "1"
+				sock.mu.Unlock()
+			case "end":
+				synctest.Wait()
+				logMu.Lock()
+				endMark = len(log)
+				logMu.Unlock()
+			}
+			synctest.Wait()
+		}
+		r.Close()
+		go func() {
+			for range r.Inbound() {
+			}
+		}()
+		wg.Wait()
+		// let pause / back-off timers run out so that no goroutine is left behind
+		time.Sleep(time.Hour)
+		synctest.Wait()
+	})
+	logMu.Lock()
+	defer logMu.Unlock()
+	if endMark >= 0 && endMark <= len(log) {
+		log = log[:endMark]
+	}
+	return canonical(log)
+}
